@@ -198,7 +198,9 @@ class FieldNameResolver:
             name = snake_to_upper_camel(name, delimiter=self.original_delimiter)
 
         name = re.sub(r"[¹²³⁴⁵⁶⁷⁸⁹]|\W", "_", name)
-        if name[0].isnumeric():
+        # \w also matches characters (e.g. "①", "½") that can not be part of an identifier
+        name = "".join(c if f"a{c}".isidentifier() else "_" for c in name)
+        if name[0].isnumeric() or not name[0].isidentifier():
             name = f"{self.special_field_name_prefix}_{name}"
 
         # We should avoid having a field begin with an underscore, as it
@@ -209,6 +211,9 @@ class FieldNameResolver:
             else:
                 name = f"{self.special_field_name_prefix}{name}"
                 break
+        if not name or not name[0].isidentifier():
+            # removing the leading underscores left nothing, or a character that can not start an identifier
+            name = f"{self.special_field_name_prefix}_{name}"
         if self.capitalise_enum_members or (self.snake_case_field and not ignore_snake_case_field):
             name = camel_to_snake(name)
         count = 1
